@@ -14,19 +14,21 @@
   unless stated), all bit widths / integer bits / flags / scales.
 
   "Expectation equals the input" is stated algebraically: the set of draws that round up is
-  exactly `{u | u ≤ frac}` (`*_up_iff`), `0 ≤ frac < 1` (`*_frac_mem`), so for `u` uniform on
-  `[0,1)` the upper code has probability `frac`, and `(1-frac)·below + frac·above = input`
+  exactly `{u | u ≤ frac}` (`*_up_iff`; `{u | u < frac}` for the power-of-two classes),
+  `0 ≤ frac < 1` (`*_frac_mem`), so for `u` uniform on `[0,1)` the upper code has probability
+  `frac`, and `(1-frac)·below + frac·above = input`
   (`*_unbiased`).  The measure-theoretic wrapping (Lebesgue measure of `[0,frac]` is `frac`) is
   not formalised.
 
-  Findings mirrored by the model (see notes/C08.md, known/C08.json):
-   F1 C08-halfstep  quantized_relu / quantized_tanh / quantized_sigmoid round at precision 1/2,
-                    so half-codes are emitted (`C08_halfstep_counterexample*`); everything else
-                    of the property holds for them (`C08_act_*`), and all of it at precision 1.
-   F2 C08-po2-u0    `stochastic_round_po2` moves an exact power of two one code up when the draw
-                    is exactly 0 (`C08_po2_u0_counterexample`); fixed for every `u > 0`.
-   F3 C08-binary-shape  `binary(use_stochastic_rounding=True)` at phase 0 multiplies by a tensor of
-                    shape `[rank]` (`C08_binary_infer_shape_counterexample`).
+  Three defects found by this check were repaired in /repo (known/C08.json "fixed"); the model
+  mirrors the repaired code and each repair keeps a regression witness here:
+   e93b27f  quantized_relu / quantized_tanh / quantized_sigmoid pass precision=1.0
+            (`C08_act_impl_precision`, `C08_relu_regression_9_32`; what precision 1/2 did:
+            `C08_precision_half_not_adjacent`).
+   2fe48c1  `stochastic_round_po2` tests `y <= val`: exact powers of two are fixed for the draw 0
+            as well (`C08_po2_u0_regression`).
+   65bdf0f  `binary(use_stochastic_rounding=True)` at phase 0 fills with `tf.ones_like(x)`
+            (`C08_binary_infer_shape`, witness 3x4).
 -/
 import QKV.Lemmas.Stoch
 namespace QKV.Props.C08
@@ -183,12 +185,11 @@ theorem C08_linear_inference (c : BitsCfg) (x u : ℚ) (phase' : Bool) (u' : ℚ
   unfold quantizedLinear linScale linClipBounds linSign
   simp only [roundThrough_infer, roundThrough_det]
 
-/-! ## 3. quantized_relu / quantized_tanh / quantized_sigmoid at precision `π`
+/-! ## 3. quantized_relu / quantized_tanh / quantized_sigmoid
 
-`π` is what `_round_through` runs with: the code passes nothing, i.e. `actPrecision = 1/2`
-(finding F1); the repaired code passes 1.  Stated for every precision `1/n`:
-adjacency on the `π`-refined lattice, the threshold/unbiasedness facts, fixed codes, inference.
-At `π = 1` (`*_fixed_adjacent`) this is the full property. -/
+`π` is the precision `_round_through` runs with; the code passes `actPrecision = 1`
+(`C08_act_impl_precision`).  The `*_prec` theorems hold for every precision `1/n`; the theorems
+without suffix are the property for the implementation (`π = actPrecision`). -/
 
 structure ReluOK (c : ReluCfg) : Prop where
   stoch : c.stoch = true
@@ -197,16 +198,20 @@ structure ReluOK (c : ReluCfg) : Prop where
 
 example : ReluOK { bits := 4, integer := 0, negSlope := 0, stoch := true } := ⟨rfl, rfl, by decide⟩
 
-theorem C08_relu_adjacent_partial {π : ℚ} (hπ : IsPrec π) (c : ReluCfg) (h : ReluOK c) (x u1 u2 : ℚ) :
+theorem C08_relu_adjacent_prec {π : ℚ} (hπ : IsPrec π) (c : ReluCfg) (h : ReluOK c) (x u1 u2 : ℚ) :
     quantizedRelu π c true x u1 u2 = (reluLat c).belowP π (reluLevel c x) ∨
     quantizedRelu π c true x u1 u2 = (reluLat c).aboveP π (reluLevel c x) := by
   rw [quantizedRelu_train hπ c h.stoch h.slope h.bits]; exact latQ_mem π hπ.pos _ _ _
 
-/-- the full adjacency clause for the repaired precision -/
-theorem C08_relu_fixed_adjacent (c : ReluCfg) (h : ReluOK c) (x u1 u2 : ℚ) :
-    quantizedRelu 1 c true x u1 u2 = (reluLat c).below (reluLevel c x) ∨
-    quantizedRelu 1 c true x u1 u2 = (reluLat c).above (reluLevel c x) := by
-  rw [← Lat.belowP_one, ← Lat.aboveP_one]; exact C08_relu_adjacent_partial isPrec_one c h x u1 u2
+/-- the precision the implementation passes (repair e93b27f; it was 1/2) -/
+theorem C08_act_impl_precision : actPrecision = 1 := rfl
+
+/-- adjacent: one of the two codes next to the clipped input, for every draw -/
+theorem C08_relu_adjacent (c : ReluCfg) (h : ReluOK c) (x u1 u2 : ℚ) :
+    quantizedRelu actPrecision c true x u1 u2 = (reluLat c).below (reluLevel c x) ∨
+    quantizedRelu actPrecision c true x u1 u2 = (reluLat c).above (reluLevel c x) := by
+  rw [C08_act_impl_precision, ← Lat.belowP_one, ← Lat.aboveP_one]
+  exact C08_relu_adjacent_prec isPrec_one c h x u1 u2
 
 theorem C08_relu_unbiased {π : ℚ} (hπ : IsPrec π) (c : ReluCfg) (x : ℚ) :
     (1 - (reluLat c).fracP π (reluLevel c x)) * (reluLat c).belowP π (reluLevel c x)
@@ -245,16 +250,17 @@ theorem C08_relu_inference (π : ℚ) (c : ReluCfg) (x u1 u2 : ℚ) (phase' : Bo
     quantizedRelu π c false x u1 u2 = quantizedRelu π' { c with stoch := false } phase' x v1 v2 := by
   unfold quantizedRelu; simp only [roundThrough_infer, roundThrough_det]
 
-theorem C08_tanh_adjacent_partial {π : ℚ} (hπ : IsPrec π) (bits : ℤ) (sym : Bool) (hb : 2 ≤ bits)
+theorem C08_tanh_adjacent_prec {π : ℚ} (hπ : IsPrec π) (bits : ℤ) (sym : Bool) (hb : 2 ≤ bits)
     (p u : ℚ) :
     quantizedTanh π bits sym true true p u = (tanhLat bits sym).belowP π (p * pow2 (bits - 1)) ∨
     quantizedTanh π bits sym true true p u = (tanhLat bits sym).aboveP π (p * pow2 (bits - 1)) := by
   rw [quantizedTanh_train hπ bits sym hb]; exact latQ_mem π hπ.pos _ _ _
 
-theorem C08_tanh_fixed_adjacent (bits : ℤ) (sym : Bool) (hb : 2 ≤ bits) (p u : ℚ) :
-    quantizedTanh 1 bits sym true true p u = (tanhLat bits sym).below (p * pow2 (bits - 1)) ∨
-    quantizedTanh 1 bits sym true true p u = (tanhLat bits sym).above (p * pow2 (bits - 1)) := by
-  rw [← Lat.belowP_one, ← Lat.aboveP_one]; exact C08_tanh_adjacent_partial isPrec_one bits sym hb p u
+theorem C08_tanh_adjacent (bits : ℤ) (sym : Bool) (hb : 2 ≤ bits) (p u : ℚ) :
+    quantizedTanh actPrecision bits sym true true p u = (tanhLat bits sym).below (p * pow2 (bits - 1)) ∨
+    quantizedTanh actPrecision bits sym true true p u = (tanhLat bits sym).above (p * pow2 (bits - 1)) := by
+  rw [C08_act_impl_precision, ← Lat.belowP_one, ← Lat.aboveP_one]
+  exact C08_tanh_adjacent_prec isPrec_one bits sym hb p u
 
 theorem C08_tanh_unbiased {π : ℚ} (hπ : IsPrec π) (bits : ℤ) (sym : Bool) (p : ℚ) :
     (1 - (tanhLat bits sym).fracP π (p * pow2 (bits - 1))) * (tanhLat bits sym).belowP π (p * pow2 (bits - 1))
@@ -281,16 +287,17 @@ theorem C08_tanh_inference (π : ℚ) (bits : ℤ) (sym stoch : Bool) (p u : ℚ
     quantizedTanh π bits sym stoch false p u = quantizedTanh π' bits sym false phase' p u' := by
   unfold quantizedTanh; simp only [roundThrough_infer, roundThrough_det]
 
-theorem C08_sigmoid_adjacent_partial {π : ℚ} (hπ : IsPrec π) (bits : ℤ) (sym : Bool) (hb : 1 ≤ bits)
+theorem C08_sigmoid_adjacent_prec {π : ℚ} (hπ : IsPrec π) (bits : ℤ) (sym : Bool) (hb : 1 ≤ bits)
     (p u : ℚ) :
     quantizedSigmoid π bits sym true true p u = (sigmoidLat bits sym).belowP π (p * pow2 bits) ∨
     quantizedSigmoid π bits sym true true p u = (sigmoidLat bits sym).aboveP π (p * pow2 bits) := by
   rw [quantizedSigmoid_train hπ bits sym hb]; exact latQ_mem π hπ.pos _ _ _
 
-theorem C08_sigmoid_fixed_adjacent (bits : ℤ) (sym : Bool) (hb : 1 ≤ bits) (p u : ℚ) :
-    quantizedSigmoid 1 bits sym true true p u = (sigmoidLat bits sym).below (p * pow2 bits) ∨
-    quantizedSigmoid 1 bits sym true true p u = (sigmoidLat bits sym).above (p * pow2 bits) := by
-  rw [← Lat.belowP_one, ← Lat.aboveP_one]; exact C08_sigmoid_adjacent_partial isPrec_one bits sym hb p u
+theorem C08_sigmoid_adjacent (bits : ℤ) (sym : Bool) (hb : 1 ≤ bits) (p u : ℚ) :
+    quantizedSigmoid actPrecision bits sym true true p u = (sigmoidLat bits sym).below (p * pow2 bits) ∨
+    quantizedSigmoid actPrecision bits sym true true p u = (sigmoidLat bits sym).above (p * pow2 bits) := by
+  rw [C08_act_impl_precision, ← Lat.belowP_one, ← Lat.aboveP_one]
+  exact C08_sigmoid_adjacent_prec isPrec_one bits sym hb p u
 
 theorem C08_sigmoid_unbiased {π : ℚ} (hπ : IsPrec π) (bits : ℤ) (sym : Bool) (p : ℚ) :
     (1 - (sigmoidLat bits sym).fracP π (p * pow2 bits)) * (sigmoidLat bits sym).belowP π (p * pow2 bits)
@@ -317,13 +324,10 @@ theorem C08_sigmoid_inference (π : ℚ) (bits : ℤ) (sym stoch : Bool) (p u : 
     quantizedSigmoid π bits sym stoch false p u = quantizedSigmoid π' bits sym false phase' p u' := by
   unfold quantizedSigmoid; simp only [roundThrough_infer, roundThrough_det]
 
-/-- F1: what the code runs with today. After the repair (`precision=1.0` passed) this becomes
-    `actPrecision = 1` and `C08_*_fixed_adjacent` apply to the implementation. -/
-theorem C08_halfstep_impl_precision : actPrecision = 1 / 2 := rfl
-
-/-- F1, for every lattice: at precision 1/2 a level `k + 1/2` strictly inside the range is
-    returned unchanged by every draw — strictly between the two adjacent codes. -/
-theorem C08_halfstep_counterexample (L : Lat) (hpost : 0 < L.post) (p u : ℚ) (k : ℤ)
+/-- why the precision matters (the behaviour before e93b27f): at precision 1/2 a level `k + 1/2`
+    strictly inside the range is returned unchanged by every draw — strictly between the two
+    adjacent codes, for every lattice. -/
+theorem C08_precision_half_not_adjacent (L : Lat) (hpost : 0 < L.post) (p u : ℚ) (k : ℤ)
     (hk : L.lvl p = k + 1 / 2) :
     latQ (1 / 2) L p u = L.post * (k + 1 / 2 + L.off) ∧
     L.below p < latQ (1 / 2) L p u ∧ latQ (1 / 2) L p u < L.above p := by
@@ -340,12 +344,14 @@ theorem C08_halfstep_counterexample (L : Lat) (hpost : 0 < L.post) (p u : ℚ) (
   · rw [h1, Lat.below, fl_eq, hfl]; nlinarith
   · rw [h1, Lat.above, ce_eq, hce]; push_cast; nlinarith
 
-/-- F1 on `quantized_relu(4,0,use_stochastic_rounding=True)`: `x = 9/32` (level 4.5) comes back as
-    `9/32` for every draw, although the adjacent codes are `4/16` and `5/16`. -/
-theorem C08_halfstep_counterexample_relu (u1 u2 : ℚ) :
+/-- regression witness of e93b27f: `quantized_relu(4,0,use_stochastic_rounding=True)(9/32)` (level
+    4.5; it used to come back as 9/32) is `4/16` or `5/16` for every draw, and it is `5/16`
+    exactly for the draws `u1 ≤ 1/2`. -/
+theorem C08_relu_regression_9_32 (u1 u2 : ℚ) :
     let c : ReluCfg := { bits := 4, integer := 0, negSlope := 0, stoch := true }
-    quantizedRelu (1 / 2) c true (9 / 32) u1 u2 = 9 / 32 ∧
-    (reluLat c).below (reluLevel c (9 / 32)) < 9 / 32 ∧ 9 / 32 < (reluLat c).above (reluLevel c (9 / 32)) := by
+    (quantizedRelu actPrecision c true (9 / 32) u1 u2 = 1 / 4 ∨
+     quantizedRelu actPrecision c true (9 / 32) u1 u2 = 5 / 16) ∧
+    (quantizedRelu actPrecision c true (9 / 32) u1 u2 = 5 / 16 ↔ u1 ≤ 1 / 2) := by
   intro c
   have hc : ReluOK c := ⟨rfl, rfl, by decide⟩
   have h16 : pow2 4 = 16 := by simp [pow2_eq_zpow]; norm_num
@@ -354,15 +360,22 @@ theorem C08_halfstep_counterexample_relu (u1 u2 : ℚ) :
     simp only [reluLevel, c, if_true, sub_zero, h16, h1]; norm_num
   have hlat : reluLat c = { post := 1 / 16, off := 0, lo := 0, hi := 15 } := by
     simp only [reluLat, c, if_true, sub_zero, h16, h1]; norm_num
-  have hk : (reluLat c).lvl (reluLevel c (9 / 32)) = ((4 : ℤ) : ℚ) + 1 / 2 := by
+  have hlvl : (reluLat c).lvl (reluLevel c (9 / 32)) = 9 / 2 := by
     rw [hlev, hlat, Lat.lvl, clip_of_mem] <;> norm_num
-  have hp : 0 < (reluLat c).post := by rw [hlat]; norm_num
-  obtain ⟨a, b, d⟩ := C08_halfstep_counterexample (reluLat c) hp (reluLevel c (9 / 32)) u1 4 hk
-  rw [quantizedRelu_train isPrec_half c hc.stoch hc.slope hc.bits]
-  have e : latQ (1 / 2) (reluLat c) (reluLevel c (9 / 32)) u1 = 9 / 32 := by
-    rw [a, hlat]; norm_num
-  rw [e] at b d
-  exact ⟨e, b, d⟩
+  have hfl : ⌊(9 / 2 : ℚ)⌋ = 4 := by rw [Int.floor_eq_iff]; constructor <;> norm_num
+  have hce : ⌈(9 / 2 : ℚ)⌉ = 5 := by rw [Int.ceil_eq_iff]; constructor <;> norm_num
+  have hb : (reluLat c).below (reluLevel c (9 / 32)) = 1 / 4 := by
+    rw [Lat.below, hlvl, fl_eq, hfl, hlat]; norm_num
+  have ha : (reluLat c).above (reluLevel c (9 / 32)) = 5 / 16 := by
+    rw [Lat.above, hlvl, ce_eq, hce, hlat]; norm_num
+  constructor
+  · have := C08_relu_adjacent c hc (9 / 32) u1 u2
+    rwa [hb, ha] at this
+  · have hx : (⌊(reluLat c).lvl (reluLevel c (9 / 32)) / 1⌋ : ℚ) ≠ (reluLat c).lvl (reluLevel c (9 / 32)) / 1 := by
+      rw [hlvl, div_one, hfl]; norm_num
+    have := C08_relu_up_iff isPrec_one c hc (9 / 32) u1 u2 hx
+    rw [Lat.aboveP_one, Lat.fracP_one, ha, Lat.frac, hlvl, fl_eq, hfl] at this
+    rw [C08_act_impl_precision, this]; norm_num
 
 /-! ## 4. power-of-two: `stochastic_round_po2`, `_clip_power_of_two`, quantized_po2 -/
 
@@ -371,19 +384,20 @@ theorem C08_po2_round_adjacent {y : ℚ} {e0 l : ℤ} (u : ℚ) (hb : Bracket y 
     stochasticRoundPo2Core y e0 u = l ∨ stochasticRoundPo2Core y e0 u = l + 1 := by
   rw [stochasticRoundPo2Core_eq u hb h]; split <;> simp
 
-/-- the draws that round up are exactly `u ≤ (y − 2^l)/(2^(l+1) − 2^l)` -/
+/-- the draws that round up are exactly `u < (y − 2^l)/(2^(l+1) − 2^l)` (since 2fe48c1 the test
+    is `y <= val`, so the boundary draw rounds down) -/
 theorem C08_po2_round_up_iff {y : ℚ} {e0 l : ℤ} (u : ℚ) (hb : Bracket y l) (h : LogOK y e0) :
-    stochasticRoundPo2Core y e0 u = l + 1 ↔ u ≤ (y - pow2 l) / (pow2 (l + 1) - pow2 l) := by
+    stochasticRoundPo2Core y e0 u = l + 1 ↔ u < (y - pow2 l) / (pow2 (l + 1) - pow2 l) := by
   rw [stochasticRoundPo2Core_eq u hb h, pow2_succ]
   have hp := pow2_pos l
   have e : 2 * pow2 l - pow2 l = pow2 l := by ring
-  rw [e, le_div_iff₀ hp]
+  rw [e, lt_div_iff₀ hp]
   split
-  · rename_i hlt
+  · rename_i hle
     constructor
     · intro h2; omega
     · intro h2; linarith
-  · rename_i hlt
+  · rename_i hle
     simp only [true_iff]; linarith
 
 theorem C08_po2_frac_mem {y : ℚ} {l : ℤ} (hb : Bracket y l) :
@@ -403,17 +417,17 @@ theorem C08_po2_round_unbiased (y : ℚ) (l : ℤ) :
   have e : pow2 (l + 1) - pow2 l = pow2 l := by rw [pow2_succ]; ring
   rw [e, pow2_succ]; field_simp; ring
 
-/-- codes (exact powers of two) are fixed for every draw `u > 0` … -/
-theorem C08_po2_code_fixed_partial (k e0 : ℤ) (u : ℚ) (hu : 0 < u) (h : LogOK (pow2 k) e0) :
+/-- codes (exact powers of two) are fixed for every draw `u ≥ 0` -/
+theorem C08_po2_code_fixed (k e0 : ℤ) (u : ℚ) (hu : 0 ≤ u) (h : LogOK (pow2 k) e0) :
     stochasticRoundPo2Core (pow2 k) e0 u = k := by
   rw [stochasticRoundPo2Core_eq u (bracket_pow2 k) h]
-  have : pow2 k < pow2 k + u * pow2 k := by have := pow2_pos k; nlinarith
+  have : pow2 k ≤ pow2 k + u * pow2 k := by have := pow2_pos k; nlinarith
   simp [this]
 
-/-- F2 … but the draw `u = 0` (which `tf.random.uniform` can return) moves every exact power of
-    two one code up. -/
-theorem C08_po2_u0_counterexample (k : ℤ) : stochasticRoundPo2Core (pow2 k) k 0 = k + 1 := by
-  rw [stochasticRoundPo2Core_eq 0 (bracket_pow2 k) (logOK_pow2 k)]; simp
+/-- regression witness of 2fe48c1: the draw `u = 0` (which `tf.random.uniform` can return) used to
+    move every exact power of two one code up; now it is returned unchanged. -/
+theorem C08_po2_u0_regression (k : ℤ) : stochasticRoundPo2Core (pow2 k) k 0 = k :=
+  C08_po2_code_fixed k k 0 le_rfl (logOK_pow2 k)
 
 /-- `_clip_power_of_two` in training: the clipped exponent of one of the two bracketing powers -/
 theorem C08_po2_clip_adjacent (c : Po2Cfg) (hs : c.stoch = true) (xabs u : ℚ) (l : ℤ)
@@ -435,8 +449,8 @@ theorem C08_po2_adjacent (c : Po2Cfg) (hs : c.stoch = true) (x u : ℚ) (l : ℤ
   rcases C08_po2_clip_adjacent c hs (absR x) u l hx hb h with e | e <;> rw [e] <;> simp
 
 /-- class level: an exact power of two inside the range (not cut by `max_value`) is fixed by every
-    draw `u > 0` (F2 is the draw `u = 0`) -/
-theorem C08_po2_clip_code_fixed_partial (c : Po2Cfg) (hs : c.stoch = true) (k : ℤ) (u : ℚ) (hu : 0 < u)
+    draw `u ≥ 0` -/
+theorem C08_po2_clip_code_fixed (c : Po2Cfg) (hs : c.stoch = true) (k : ℤ) (u : ℚ) (hu : 0 ≤ u)
     (hx : ¬ pow2 k < epsK) (hf : po2Filter c (pow2 k) = pow2 k)
     (h : LogOK (pow2 k) (roundLog2 (pow2 k + epsK))) :
     clipPowerOfTwo c true (pow2 k) u = clipI k c.minExp c.maxExp :=
@@ -488,11 +502,12 @@ theorem C08_binary_inference (use01 : Bool) (α x m u1 u2 : ℚ) (phase' : Bool)
   unfold binaryQ
   rcases sgn_mem x with e | e | e <;> cases use01 <;> simp [e, absR] <;> norm_num
 
-/-- F3: the shape `[rank]` tensor the phase-0 branch multiplies with does not broadcast against,
-    e.g., a `3×4` input (the call raises), while rank-1 inputs and `n×2` matrices work. -/
-theorem C08_binary_infer_shape_counterexample :
-    binaryInferShapeOk [3, 4] = false ∧ binaryInferShapeOk [7] = true ∧ binaryInferShapeOk [3, 2] = true := by
-  decide
+/-- phase 0 keeps every input shape (repair 65bdf0f: the fill is `tf.ones_like(x)`); regression
+    witness: the `3×4` input that used to raise. -/
+theorem C08_binary_infer_shape (shape : List Nat) : binaryInferShapeOk shape = true := rfl
+
+theorem C08_binary_infer_shape_regression : binaryInferShapeOk [3, 4] = true :=
+  C08_binary_infer_shape _
 
 /-- ternary's rounding step always yields a ternary code -/
 theorem C08_ternary_step_codes (stoch phase : Bool) (x scale u : ℚ) :
